@@ -4,13 +4,13 @@
 # checkout (VERIF_REPO) with evidence/replays redirected (VERIF_OUT_DIR), then resets the worktree.  /repo itself is never touched.
 set -u
 patch=$1; shift
-wt=/tmp/wt/seedrepo
+wt=${WT:-/tmp/wt/seedrepo}
 [ -d $wt ] || git -C /repo worktree add --detach $wt HEAD -q
 cd $wt && git checkout -q --detach $(git -C /repo rev-parse HEAD) && git checkout -- . && git clean -fdq
 git apply "$patch" || { echo "patch does not apply"; exit 3; }
 cd /verif
 for p in "$@"; do
-  out=$(VERIF_REPO=$wt VERIF_OUT_DIR=/tmp/seedout timeout ${TIMEOUT:-1800} python3-vt check.py $p --tier ${TIER:-quick} 2>&1); rc=$?
+  out=$(VERIF_REPO=$wt VERIF_OUT_DIR=${OUT:-/tmp/seedout} timeout ${TIMEOUT:-1800} python3-vt check.py $p --tier ${TIER:-quick} 2>&1); rc=$?
   echo "== $p rc=$rc"
   echo "$out" | grep -E "^VIOLATION|^   what|^INCONCLUSIVE|^KNOWN|tier=" | cut -c1-500 | head -${LINES_SHOWN:-6}
 done
